@@ -21,6 +21,12 @@ theorem inv4_srcRet {cfg : Cfg} {s s' : State} (ev : _) (h1 : Inv1 cfg s) (hi : 
   obtain ⟨j1, j2, j3, j4⟩ := hi
   unfold_step at h <;> (repeat' split at h) <;> cases h <;> close_inv
 
+theorem inv4_srcCancelErr {cfg : Cfg} {s s' : State} (w : _) (h1 : Inv1 cfg s) (hi : Inv4 cfg s)
+    (h : step good cfg s (.srcCancelErr w) = some s') : Inv4 cfg s' := by
+  obtain ⟨c1, t1a, t_set, t_ne, t_len, t_armed, t_fired, n1, n2, u0, u3, u1⟩ := h1
+  obtain ⟨j1, j2, j3, j4⟩ := hi
+  unfold_step at h <;> (repeat' split at h) <;> cases h <;> close_inv
+
 theorem inv4_nextCall {cfg : Cfg} {s s' : State} (live : _) (h1 : Inv1 cfg s) (hi : Inv4 cfg s)
     (h : step good cfg s (.nextCall live) = some s') : Inv4 cfg s' := by
   obtain ⟨c1, t1a, t_set, t_ne, t_len, t_armed, t_fired, n1, n2, u0, u3, u1⟩ := h1
@@ -145,6 +151,7 @@ theorem inv4_step {cfg : Cfg} {s s' : State} {l : Label} (h1 : Inv1 cfg s) (hi :
     (h : step good cfg s l = some s') : Inv4 cfg s' := by
   cases l with
   | srcRet ev => exact inv4_srcRet ev h1 hi h
+  | srcCancelErr w => exact inv4_srcCancelErr w h1 hi h
   | nextCall live => exact inv4_nextCall live h1 hi h
   | ctxExpire => exact inv4_ctxExpire h1 hi h
   | tick d => exact inv4_tick d h1 hi h
